@@ -6,6 +6,7 @@ GEN = {
     'C01': [('Gen_C01', 'props.t_C01')],
     'C08': [('Gen_C08', 'props.t_C08')],
     'C09': [('Gen_C09', 'props.t_C09')],
+    'C10': [('Gen_C10', 'props.t_C10')],
     'C11': [('Gen_C11', 'props.t_C11')],
 }
 
